@@ -315,12 +315,22 @@ def run(name, prop, tier, seed, known, lock):
         return run_ivbounded(prop, tier, seed, known, lock)
     if name == 'guards':
         return run_guards(prop, tier, seed, known, lock)
+    if name == 'cachekeys':
+        return run_cachekeys(prop, tier, seed, known, lock)
     raise KeyError(name)
 
 
 def replay(d):
     if d.get('engine') == 'precframe':
         return replay_precframe(d)
+    if d.get('engine') == 'cachekeys':
+        r = run_cachekeys(d.get('property'), 'quick', 0, {'findings': []}, {})
+        for v in r['violations']:
+            if v[0] == d.get('obligation'):
+                print('cache contract still violated:', v[1]['replay']['observed'])
+                print('VIOLATION property=%s replay=%s no-failing-input-found' % (d.get('property'), d.get('obligation')))
+                return 1
+        return 0
     if d.get('engine') == 'guards':
         r = run_guards(d.get('property'), 'quick', 0, {'findings': []}, {})
         for v in r['violations']:
@@ -738,6 +748,52 @@ def run_guards(prop, tier, seed, known, lock):
             out['violations'].append((key, rec, path, suffix))
         else:
             out['undecided'].append((key, 'guarded-return contract: %s (%s)' % (r['status'], r.get('reason'))))
+    out['obligations'] = len(out['records'])
+    out['discharged'] = sum(1 for k, rc, u in out['records'] if rc['status'] == 'proved')
+    return out
+
+
+# ======================================================================================= cache protocols
+
+def run_cachekeys(prop, tier, seed, known, lock):
+    for p in (REPO, HERE):
+        if p not in sys.path:
+            sys.path.insert(0, p)
+    from pyvc import cachekeys as K
+    from pyvc.check import write_replay, finding_matches
+    out = {'obligations': 0, 'discharged': 0, 'records': [], 'violations': [], 'undecided': [],
+           'known_hits': [], 'errors': [], 'samples': [], 'functions': [], 'assumptions': [
+               'cache-protocol contracts: dependencies are computed by backward slicing over the assignments of the function (over-approximation); calls are functions of their arguments, their receiver and (outside libmp) the working precision in force',
+           ], 'coverage': {}}
+    for sp in K.SPECS:
+        if sp['kind'] == 'key':
+            r = K.check_key_determines(REPO, sp)
+        elif sp['kind'] == 'inv':
+            r = K.check_invalidation(REPO, sp)
+        else:
+            r = K.check_same_protocol(REPO, sp)
+        key = 'cache|%s' % sp['name'].split(':')[0]
+        if sp['kind'] == 'key':
+            key += '|' + sp['cache']
+        rec = {'name': key, 'kind': 'cache', 'clause': sp['name'], 'status': 'proved' if r['status'] == 'proved' else
+               ('sat' if r['status'] == 'violated' else 'unknown'), 'solver': 'dataflow', 'reason': r.get('reason')}
+        unit = {'target': key, 'enum': {}, 'file': sp['file']}
+        out['records'].append((key, rec, unit))
+        out['functions'].append('%s:%s' % (sp['file'], sp.get('function', sp.get('class'))))
+        if r['status'] == 'proved':
+            if len(out['samples']) < 3:
+                out['samples'].append({'obligation': sp['name'], 'status': 'proved'})
+        elif r['status'] == 'violated':
+            rec['replay'] = {'status': 'static', 'observed': '; '.join(r['bad'])[:500]}
+            rec['engine'] = 'cachekeys'
+            kf = [k for k in known.get('findings', []) if finding_matches(k, prop, key, rec)]
+            if kf:
+                out['known_hits'].append((kf[0], key, rec))
+            else:
+                path = write_replay(prop, unit, rec, 'cache-protocol contract violated: ' + r['bad'][0])
+                out['violations'].append((key, rec, path, ' no-failing-input-found'))
+        else:
+            out['undecided'].append((key, 'cache contract %s (%s)' % (r['status'], r.get('reason'))))
     out['obligations'] = len(out['records'])
     out['discharged'] = sum(1 for k, rc, u in out['records'] if rc['status'] == 'proved')
     return out
